@@ -34,6 +34,7 @@ type c17iCase struct {
 	Op         string        `json:"op"`
 	TargetDecl int           `json:"target_decl,omitempty"` // the import declaration the removed import stands in
 	ViaCLI     bool          `json:"via_cli,omitempty"`     // run through the command line with --skip-import-processing
+	TightDoc   bool          `json:"tight_doc,omitempty"`   // the doc comment of f stands directly below the package clause (no blank line)
 	TightBelow bool          `json:"tight_below,omitempty"` // the comment below the package clause stands directly below it although gofmt would put a blank line there
 
 	// build constraint lines, put in front of the file after it went
@@ -169,6 +170,14 @@ func c17iDraw(rt *rapid.T) *c17iCase {
 
 	var tg spec
 	op := rapid.IntRange(0, 6).Draw(rt, "op")
+	if sc && rapid.IntRange(0, 2).Draw(rt, "scPlainAdd") == 0 {
+		// one change that adds the first import; with the doc comment of f
+		// directly below the package clause (see c17iRun)
+		cs.Op = "add-import"
+		cs.Patch = "@@\n@@\n+import \"newer/path\"\n\n-foo()\n+path.Foo()\n"
+		cs.TightDoc = true
+		return cs
+	}
 	if len(specs) == 0 && !strings.Contains(cs.File, "import \"C\"") && (sc || rapid.Bool().Draw(rt, "renameThenReplace")) {
 		// No imports: f is the first declaration. Two changes: the package
 		// is renamed (and f rewritten inside), then f is replaced by a
@@ -472,6 +481,11 @@ func c17iRun(rt *rapid.T) {
 				cs.TightBelow = true
 			}
 		}
+	}
+	if cs.TightDoc {
+		// (only where nothing else is tied to the package clause: a comment
+		// on its line or below it would become part of f's doc comment)
+		cs.File = strings.Replace(cs.File, "package subject\n\n// f is documented.", "package subject\n// f is documented.", 1)
 	}
 	cs.ViaCLI = rapid.IntRange(0, 3).Draw(rt, "viaCLI") == 0
 	found, judged := evalC17i(cs)
